@@ -154,6 +154,20 @@ CLAIMED.update({
    design="6 (C13)", technique="Coq proof (modular arithmetic over R; Flocq rounding model for the float clauses; interval for constants) + exact-rational and native-float correspondence"),
 })
 
+CLAIMED.update({
+ "C15": dict(
+   text="Machine-checked Coq theorems over the reals, with ulps_eq! an oracle specified as reflexive and tolerance-bounded: for unit a, b not (treated as) parallel or antiparallel, "
+        "Quaternion::between_vectors(a,b) is a unit quaternion r with r(a) = b exactly, positive scalar part, cos(rotation angle) = a.b and axis a positive multiple of a x b (perpendicular to both); "
+        "for arbitrary non-zero lengths it maps the direction of a onto that of b; the identity is returned exactly when ulps_eq!(a.b, 1) (always for a = b); for antiparallel inputs the result is a "
+        "half turn (scalar part 0) about a unit axis perpendicular to a with r(a) = -a; Basis3 is the matrix of that quaternion (same action, orthonormal, det +1); Basis2::between_vectors (as repaired "
+        "by the fix: commit) is the proper rotation by the signed angle(a,b) in [-pi,pi] mapping a onto b, clockwise exactly when b is clockwise of a (the previous acos formula is refuted with a = (1,0), "
+        "b = (0,-1)); Quaternion::from_arc(src,dst,f) for non-zero vectors of any lengths is a unit quaternion rotating src/|src| onto dst/|dst| through the smaller angle, the identity / the half-turn about "
+        "the fallback (or a perpendicular unit) axis in the degenerate branches; with the binary64 parameters a degenerate answer means within 1e-7 rad (unit vectors) resp. 1e-4 rad (from_arc, "
+        "|src||dst| >= 1e-6) of parallel/antiparallel. " + TIE + "Inputs lie in rational planes at angles whose half-angle has rational sine and cosine, so every normalisation is exact.",
+   note=NOTE + RAX + "ulps_eq! (approx crate) is an oracle constrained by UlpsSpec; the interval tactic is used for the radian bounds (primitive-integer/float primitives allowlisted by pattern).",
+   design="6 (C15)", technique="Coq proof (nsatz for the half-way quaternion identity, real analysis for branches and tolerances) + exact-rational correspondence incl. degenerate branches"),
+})
+
 def main():
     checks = []
     for pid in ALL:
